@@ -24,8 +24,9 @@ claim('C08', 'proof',
       'rebind chain down to `_set_item_of_current_tree`): on every symbolic path of the real bodies, any payload write, write-primitive call or '
       'unreviewed call is preceded by a consultation of `treats_as_sealed` (resp. `writtable_via_accessors`) that answered "not protected"; the two '
       'predicates are proved against the documented scope-over-flag precedence; SURFACE obligations show no mutating C method of list/dict is inherited.',
-      'Trusted: the reviewed list of non-mutating callees (PURE in contracts/c08_protect.py), A-DEEPSEAL (nodes reached from a protected receiver '
-      'are protected: seal() is deep, the scope override is global) and the engine. "Tree stays exactly as it was" for nested trees is additionally '
+      'Trusted: the reviewed list of non-mutating callees (PURE in contracts/c08_protect.py) and the engine. That nodes reached from a protected receiver '
+      'are protected (seal is deep; the scope override is global) is proved as a one-level step: `Dict.sym_seal`, `List.sym_seal`, `Object.sym_seal` seal every '
+      'symbolic child with the requested flag (LOOP-BODY) and set their own flag on every returning path -- no shortcut -- and holds for whole trees by induction. "Tree stays exactly as it was" for nested trees is additionally '
       'checked by the bounded driver (pg.to_json before/after).',
       'contract-based deductive verification (pyvc dominance/trace obligations)', 'DESIGN.md 5/C08')
 claim('C10', 'proof',
